@@ -326,6 +326,31 @@ harness!(
     leak(names);
 });
 
+harness!(
+    /// fixed whose size comes from the schema must respect the allocation limit like every other
+    /// declared length: limit 4, size 0..=7, all inputs of up to 8 bytes.
+    fixed_size_guard, unwind = 10, {
+    set_limit(4);
+    let data: [u8; 8] = any_bytes();
+    let len = any_usize();
+    assume(len <= 8);
+    let size = any_usize();
+    assume(size <= 7);
+    let names = no_names();
+    let schema = Schema::Fixed(FixedSchema { name: name("F"), aliases: None, doc: None, size, attributes: BTreeMap::new() });
+    witness!(size == 5 && len == 8, "size above the limit, enough input");
+    match run_dec(&schema, &names, data, len) {
+        Some((v, used)) => {
+            assert!(size <= 4, "a fixed of a size above the configured allocation limit was allocated and decoded");
+            assert!(len >= size && used == size, "fixed consumed != size");
+            leak(v);
+        }
+        None => assert!(len < size || size > 4, "complete fixed within the limit rejected"),
+    }
+    leak(schema);
+    leak(names);
+});
+
 pub fn enum3() -> Schema {
     Schema::Enum(EnumSchema {
         name: name("E"),
@@ -391,5 +416,6 @@ pub const HARNESSES: &[(&str, fn())] = &[
     ("dec::string_2", string_2::body),
     ("dec::string_3", string_3::body),
     ("dec::fixed_", fixed_::body),
+    ("dec::fixed_size_guard", fixed_size_guard::body),
     ("dec::enum_", enum_::body),
 ];
